@@ -183,7 +183,8 @@ func toTree(drafty *document) (*node, error) {
 		if err := s.styleToSpan(&drafty.Fmt[i]); err != nil {
 			return nil, err
 		}
-		if s.at < -1 || s.end > textLen {
+		if s.at < -1 || s.end < s.at || s.end > textLen {
+			// Out of bounds or at+len overflows.
 			return nil, errInvalidContent
 		}
 
